@@ -218,6 +218,10 @@ MALFORMED_FILTERS = [
     ("between_triple", lambda col: {col: ("between", (1, 2, 3))}),
     ("in_scalar", lambda col: {col: ("in", 5)}),
     ("not_in_scalar", lambda col: {col: ("not_in", 5)}),
+    ("in_string", lambda col: {col: ("in", "ab")}),            # a string is iterable: must not mean in ['a', 'b']
+    ("not_in_string", lambda col: {col: ("not_in", "1")}),
+    ("in_iterator", lambda col: {col: ("in", iter([1, 2]))}),   # one-shot iterator: silently empty after pruning
+    ("in_dict", lambda col: {col: ("in", {1: 2})}),
     ("nonstring_op", lambda col: {col: (5, 1)}),
     ("none_op", lambda col: {col: (None, 1)}),
 ]
